@@ -69,8 +69,13 @@
 (*                                                                         *)
 (* LITERAL MODE.  The universe of CONSTRUCTOR CALLS of scalar literals     *)
 (* (ufl/constantvalue.py): which API is called with which Python type of   *)
-(* argument and which number.  The state is the sequence of calls made so  *)
-(* far with the object each one returned, and the IntValue flyweight cache.*)
+(* argument and which number, of the other classes with a flyweight cache  *)
+(* (Zero by shape, MultiIndex by fixed indices; with free indices they are *)
+(* not cached), and of pickle / eval(repr) ROUND TRIPS of objects returned *)
+(* earlier (unpickling = __new__ on __getnewargs__() through the caches,    *)
+(* then the saved slots are written onto whatever __new__ returned).       *)
+(* The state is the sequence of calls made so far with the object each one *)
+(* returned, the flyweight caches and the current content of every object. *)
 (* See the section "Literal mode" below.                                   *)
 (***************************************************************************)
 EXTENDS Integers, Sequences, FiniteSets, TLC, Json, SequencesExt
@@ -90,8 +95,11 @@ CONSTANTS Mode,        \* "heap" or "table"
           ProjTable,   \* table mode: sequence of rows [cls, n, eq, eqr, hash, repr, sig, obs]
           LitMax,      \* literal mode: number of constructor calls of a behaviour
           LitFocus,    \* literal mode: TRUE = all calls of a behaviour are about the same number
-          LitCoerce    \* literal mode: the literal classes whose constructor converts the value it stores to
+          LitCoerce,   \* literal mode: the literal classes whose constructor converts the value it stores to
                        \*   the Python type the class wraps (as coded and intended: all three)
+          LitNewArgs,  \* literal mode: the classes whose __getnewargs__ hands ALL constructor arguments to
+                       \*   __new__ when an object is unpickled / copied (as coded and intended: all)
+          LitShapes    \* literal mode: shapes / fixed-index tuples 0..LitShapes of the flyweight classes
 
 VARIABLES obj, tup, hv, hist, pr, px, py, lit
 vars == <<obj, tup, hv, hist, pr, px, py, lit>>
@@ -322,7 +330,8 @@ TabExport == Mode = "table" => PrintT(ToJson(TabDefects))
 -----------------------------------------------------------------------------
 (* Literal mode *)
 (*                                                                         *)
-(* A call is [api, src, slot, im]:                                         *)
+(* A call is [api, src, slot, im, sh, fi, of].  CONSTRUCTOR CALLS OF SCALAR *)
+(* LITERALS (sh = fi = of = 0):                                            *)
 (*   api   the function called: the classes IntValue, FloatValue,          *)
 (*         ComplexValue, or as_ufl (what every operator overload applies   *)
 (*         to a non-UFL operand)                                           *)
@@ -334,6 +343,18 @@ TabExport == Mode = "table" => PrintT(ToJson(TabDefects))
 (*         with fractional part 1/2.  The replay chooses concrete numbers  *)
 (*         (both signs, 99/100 at the bound) and numpy dtypes.             *)
 (*   im    1: a non-zero imaginary part is added (complex arguments only)  *)
+(* CONSTRUCTOR CALLS OF THE OTHER FLYWEIGHT CLASSES (api in FlyClasses,    *)
+(* src = "shape", slot = LZ, of = 0): Zero(shape, free indices, index      *)
+(* dimensions) and MultiIndex(fixed indices ++ free indices):              *)
+(*   sh    which shape (Zero) / tuple of fixed indices (MultiIndex):       *)
+(*         0 = the empty one, 1.. = different non-empty ones               *)
+(*   fi    which free indices: 0 = none, 1, 2 = two different non-empty    *)
+(*         sets (the replay makes them differ in an index, in an index     *)
+(*         dimension only, or in their number)                             *)
+(* ROUND TRIPS (api in LitTrips, src = "obj", of = k > 0): the object      *)
+(* returned by step k is sent through pickle (the replay picks the         *)
+(* protocol, or copy.copy / copy.deepcopy, which use the same              *)
+(* __reduce_ex__ protocol) or through eval(repr(.)); slot is that of step k.*)
 (* LitValid = the calls the API accepts.                                   *)
 (*                                                                         *)
 (* Semantics as coded: as_ufl dispatches on numbers.Integral / Real /      *)
@@ -342,16 +363,34 @@ TabExport == Mode = "table" => PrintT(ToJson(TabDefects))
 (* one object per value with |value| < 100 (whoever asks first creates     *)
 (* it, everybody later gets that object); the constructors store           *)
 (* int(value) / float(value) / complex(value)  (LitCoerce).                *)
-(* An object is [cls, slot, im, vt], vt = Python type of the stored value. *)
-(* ScalarValue.__eq__ : same class and numerically equal values.           *)
+(* Zero.__new__ keeps one object per shape for the zeros WITHOUT free      *)
+(* indices (Zero._cache), MultiIndex.__new__ one per tuple of fixed        *)
+(* indices for the multi-indices WITHOUT free indices (MultiIndex._cache); *)
+(* with free indices every call creates an object.                         *)
+(* An object is [cls, slot, im, vt, sh, fi], vt = Python type of the       *)
+(* stored value.                                                            *)
+(* ScalarValue.__eq__ : same class and numerically equal values;           *)
+(* Zero.__eq__ / MultiIndex.__eq__: same class, shape / fixed indices and  *)
+(* free indices.                                                            *)
 (* repr: class name and repr of the stored value (FloatValue formats       *)
-(* float(value)); hash = hash(repr).                                       *)
+(* float(value)) resp. of shape and indices; hash = hash(repr).            *)
+(* Unpickling (copyreg.__newobj__ + __setstate__) is                       *)
+(*   y = cls.__new__(cls, *x.__getnewargs__());  then every saved slot of  *)
+(*   x (value / shape / indices / cached _hash) is WRITTEN onto y.         *)
+(* __new__ goes through the flyweight caches, so y may be a shared object: *)
+(* the write is only harmless when __getnewargs__ hands over ALL arguments *)
+(* of the constructor (LitNewArgs: the classes for which it does; as coded *)
+(* and intended all of them; for a class outside it the free indices are   *)
+(* left out).  eval(repr(x)) is the constructor call that repr prints.     *)
 (*                                                                         *)
-(* lit = [steps, cache]: steps[k] = [call, o, id] (id: identity of the     *)
-(* returned object: k if the call created it, the id of the cached object, *)
-(* ZeroId for the Zero singleton); cache[s] = id of the flyweight of small *)
-(* slot s, 0 = none yet (a behaviour starts with the values it uses not    *)
-(* yet created, as in a fresh interpreter).                                *)
+(* lit = [steps, cache, heap]: steps[k] = [call, o, id] (o: the object AS  *)
+(* RETURNED; id: its identity: k if the call created it, else the id of    *)
+(* the cached object); heap[id] = what object id looks like NOW;           *)
+(* cache[key] = id of the flyweight, 0 = none yet (a behaviour starts with *)
+(* the small integers it uses not yet created, as in a fresh interpreter,  *)
+(* and with the flyweight zeros / fixed multi-indices of all its shapes    *)
+(* existing: the AMBIENT objects, ids AmbId(cls, sh), the scalar Zero      *)
+(* being ZeroId).                                                           *)
 
 LZ == 0  LONE == 1  LS == 2  LL == 3  LL2 == 4  LH == 5
 LitSlots  == LZ..LH
@@ -360,7 +399,15 @@ IntLike   == {"int", "bool", "npint"}
 FloatLike == {"float", "npfloat"}
 CplxLike  == {"complex", "npcomplex"}
 LitApis   == {"IntValue", "FloatValue", "ComplexValue", "as_ufl"}
+FlyClasses == {"Zero", "MultiIndex"}
+LitTrips  == {"pickle", "evalrepr"}
 ZeroId    == 99
+AmbId(cls, sh) == (IF cls = "Zero" THEN ZeroId ELSE ZeroId + 20) + sh
+FlyObj(cls, sh, fi) == [cls |-> cls, slot |-> LZ, im |-> 0, vt |-> "none", sh |-> sh, fi |-> fi]
+NoObj == [cls |-> "none", slot |-> LZ, im |-> 0, vt |-> "none", sh |-> 0, fi |-> 0]
+AmbObjs == {FlyObj(c, s, 0) : c \in FlyClasses, s \in 0..LitShapes}
+AmbIds  == {AmbId(o.cls, o.sh) : o \in AmbObjs}
+AmbObj(a) == CHOOSE o \in AmbObjs : AmbId(o.cls, o.sh) = a
 
 LitValid(c) ==
   /\ c.src = "bool" => c.slot \in {LZ, LONE}
@@ -371,7 +418,9 @@ LitValid(c) ==
   /\ c.api = "ComplexValue" => c.src \in CplxLike
 
 LitCalls ==
-  {c \in [api : LitApis, src : IntLike \cup FloatLike \cup CplxLike, slot : LitSlots, im : 0..1] : LitValid(c)}
+  {c \in [api : LitApis, src : IntLike \cup FloatLike \cup CplxLike, slot : LitSlots, im : 0..1,
+          sh : {0}, fi : {0}, of : {0}] : LitValid(c)}
+  \cup [api : FlyClasses, src : {"shape"}, slot : {LZ}, im : {0}, sh : 0..LitShapes, fi : 0..2, of : {0}]
 
 LitRoute(c) ==
   IF c.api # "as_ufl" THEN c.api
@@ -384,53 +433,86 @@ Wraps(cls) == IF cls = "IntValue" THEN "int" ELSE IF cls = "FloatValue" THEN "fl
 
 \* the object a call denotes when it creates one
 LitNew(c) ==
+  IF c.api \in FlyClasses THEN FlyObj(c.api, c.sh, c.fi)
+  ELSE
   LET r   == LitRoute(c)
       viaF == r = "ComplexValue" /\ c.im = 0
       cls == IF c.im = 0 /\ c.slot = LZ THEN "Zero" ELSE IF viaF THEN "FloatValue" ELSE r
       src == IF viaF THEN RealSrc(c.src) ELSE c.src
   IN [cls |-> cls, slot |-> c.slot, im |-> c.im,
-      vt |-> IF cls = "Zero" \/ cls \in LitCoerce THEN Wraps(cls) ELSE src]
+      vt |-> IF cls = "Zero" \/ cls \in LitCoerce THEN Wraps(cls) ELSE src, sh |-> 0, fi |-> 0]
 
 LitInit ==
   /\ obj = << >> /\ tup = << >> /\ hv = << >> /\ hist = << >>
   /\ pr = 0 /\ px = << >> /\ py = << >>
-  /\ lit = [steps |-> << >>, cache |-> [s \in LitSmall |-> 0]]
+  /\ lit = [steps |-> << >>,
+            cache |-> [s \in LitSmall \cup AmbIds |-> IF s \in AmbIds THEN s ELSE 0],
+            heap  |-> [i \in (1..LitMax) \cup AmbIds |-> IF i \in AmbIds THEN AmbObj(i) ELSE NoObj]]
+
+\* what the code answers
+LitEq(a, b)   == a.cls = b.cls /\ a.slot = b.slot /\ a.im = b.im /\ a.sh = b.sh /\ a.fi = b.fi
+LitRepr(a)    == <<a.cls, IF a.cls = "FloatValue" THEN "float" ELSE a.vt, a.slot, a.im, a.sh, a.fi>>
+LitValue(a)   == <<a.vt, a.slot, a.im, a.sh, a.fi>>
+Builtin       == {"none", "int", "bool", "float", "complex"}
+
+LitO(k) == lit.heap[lit.steps[k].id]          \* the object returned by step k as it is NOW
+LitIds == DOMAIN lit.steps
+
+\* cls.__new__(cls, <the arguments that denote n>) in step i: through the flyweight caches
+LitKey(n) == IF n.cls = "IntValue" /\ n.slot \in LitSmall THEN n.slot
+             ELSE IF n.cls \in FlyClasses /\ n.fi = 0 THEN AmbId(n.cls, n.sh) ELSE 0
+LitMake(n, i) ==
+  LET key == LitKey(n)
+      hit == key # 0 /\ lit.cache[key] # 0
+  IN [id    |-> IF hit THEN lit.cache[key] ELSE i,
+      heap  |-> IF hit THEN lit.heap ELSE [lit.heap EXCEPT ![i] = n],
+      cache |-> IF key # 0 /\ ~hit THEN [lit.cache EXCEPT ![key] = i] ELSE lit.cache]
 
 LitCreate(c) ==
   /\ Len(lit.steps) < LitMax
   /\ LitFocus => \A k \in DOMAIN lit.steps : lit.steps[k].call.slot = c.slot
-  \* LL and LL2 are interchangeable: the first large number of a behaviour is LL
+  \* LL and LL2 are interchangeable: the first large number of a behaviour is LL; likewise the free index
+  \* sets 1, 2 and the non-empty shapes
   /\ c.slot = LL2 => \E k \in DOMAIN lit.steps : lit.steps[k].call.slot = LL
-  /\ LET n    == LitNew(c)
-         i    == Len(lit.steps) + 1
-         fly  == n.cls = "IntValue" /\ n.slot \in LitSmall
-         hit  == fly /\ lit.cache[n.slot] # 0
-         id   == IF n.cls = "Zero" THEN ZeroId ELSE IF hit THEN lit.cache[n.slot] ELSE i
-         o    == IF hit THEN lit.steps[id].o ELSE n
-     IN lit' = [steps |-> Append(lit.steps, [call |-> c, o |-> o, id |-> id]),
-                cache |-> IF fly /\ ~hit THEN [lit.cache EXCEPT ![n.slot] = i] ELSE lit.cache]
+  /\ c.fi = 2 => \E k \in DOMAIN lit.steps : lit.steps[k].call.fi = 1
+  /\ c.sh > 1 => \E k \in DOMAIN lit.steps : lit.steps[k].call.sh = c.sh - 1
+  /\ LET m == LitMake(LitNew(c), Len(lit.steps) + 1)
+     IN lit' = [steps |-> Append(lit.steps, [call |-> c, o |-> m.heap[m.id], id |-> m.id]),
+                cache |-> m.cache, heap |-> m.heap]
   /\ UNCHANGED <<obj, tup, hv, hist, pr, px, py>>
 
-LitNext == \E c \in LitCalls : LitCreate(c)
+\* round trip of the object returned by step k
+LitTrip(t, k) ==
+  /\ Len(lit.steps) < LitMax
+  /\ LET o    == LitO(k)
+         args == IF t = "pickle" THEN (IF o.cls \in LitNewArgs THEN o ELSE [o EXCEPT !.fi = 0])
+                 ELSE [o EXCEPT !.vt = LitRepr(o)[2]]
+         m    == LitMake(args, Len(lit.steps) + 1)
+         h2   == IF t = "pickle" THEN [m.heap EXCEPT ![m.id] = o] ELSE m.heap     \* __setstate__
+         c    == [api |-> t, src |-> "obj", slot |-> lit.steps[k].call.slot, im |-> 0, sh |-> 0, fi |-> 0, of |-> k]
+     IN /\ t = "evalrepr" => LitRepr(o)[2] \in Builtin
+        /\ lit' = [steps |-> Append(lit.steps, [call |-> c, o |-> h2[m.id], id |-> m.id]),
+                   cache |-> m.cache, heap |-> h2]
+  /\ UNCHANGED <<obj, tup, hv, hist, pr, px, py>>
 
-\* what the code answers
-LitEq(a, b)   == a.cls = b.cls /\ a.slot = b.slot /\ a.im = b.im
-LitRepr(a)    == <<a.cls, IF a.cls = "FloatValue" THEN "float" ELSE a.vt, a.slot, a.im>>
-LitValue(a)   == <<a.vt, a.slot, a.im>>
-Builtin       == {"none", "int", "bool", "float", "complex"}
+LitNext == \/ \E c \in LitCalls : LitCreate(c)
+           \/ \E t \in LitTrips, k \in DOMAIN lit.steps : LitTrip(t, k)
 
-LitO(k) == lit.steps[k].o
-LitIds == DOMAIN lit.steps
 \* == implies identical repr (hence hash) and the same value
 LitEqImpliesRepr  == Mode = "lit" => \A a \in LitIds, b \in LitIds : LitEq(LitO(a), LitO(b)) => LitRepr(LitO(a)) = LitRepr(LitO(b))
 LitEqImpliesValue == Mode = "lit" => \A a \in LitIds, b \in LitIds : LitEq(LitO(a), LitO(b)) => LitValue(LitO(a)) = LitValue(LitO(b))
 \* repr is an expression over the ufl namespace (eval(repr(x)) is possible)
 LitReprEvaluable  == Mode = "lit" => \A a \in LitIds : LitRepr(LitO(a))[2] \in Builtin
 \* the same object is only ever handed out for calls that denote the same literal, and the objects a call
-\* returned earlier are not changed by later calls
-LitIdentitySound  == Mode = "lit" => \A a \in LitIds, b \in LitIds : lit.steps[a].id = lit.steps[b].id => LitO(a) = LitO(b)
-LitStable == [][Mode = "lit" => \A k \in DOMAIN lit.steps : lit'.steps[k] = lit.steps[k]]_vars
-LitLaws == LitEqImpliesRepr /\ LitEqImpliesValue /\ LitReprEvaluable /\ LitIdentitySound
+\* returned earlier (and the ambient flyweights) are not changed by later calls
+LitIdentitySound  == Mode = "lit" => \A a \in LitIds, b \in LitIds : lit.steps[a].id = lit.steps[b].id => lit.steps[a].o = lit.steps[b].o
+LitAsReturned     == Mode = "lit" => /\ \A k \in LitIds : LitO(k) = lit.steps[k].o
+                                     /\ \A a \in AmbIds : lit.heap[a] = AmbObj(a)
+\* a round trip returns an object equal to the one sent
+LitTripEqual      == Mode = "lit" => \A k \in LitIds : lit.steps[k].call.of # 0 => LitEq(LitO(k), LitO(lit.steps[k].call.of))
+LitStable == [][Mode = "lit" => /\ \A k \in DOMAIN lit.steps : lit'.steps[k] = lit.steps[k]
+                                /\ \A i \in DOMAIN lit.heap : lit.heap[i] # NoObj => lit'.heap[i] = lit.heap[i]]_vars
+LitLaws == LitEqImpliesRepr /\ LitEqImpliesValue /\ LitReprEvaluable /\ LitIdentitySound /\ LitAsReturned /\ LitTripEqual
 
 \* export: one JSON line per complete behaviour; eqc = first earlier object the code calls == (the predicted
 \* equality classes), cls / vt / id = predicted class, stored type and identity of the returned object
@@ -438,7 +520,9 @@ LitEqc(k) == CHOOSE j \in 1..k : LitEq(LitO(j), LitO(k)) /\ \A m \in 1..(j - 1) 
 LitDoc ==
   [steps |-> [k \in DOMAIN lit.steps |->
      [api |-> lit.steps[k].call.api, src |-> lit.steps[k].call.src, slot |-> lit.steps[k].call.slot,
-      im |-> lit.steps[k].call.im, cls |-> LitO(k).cls, vt |-> LitO(k).vt, id |-> lit.steps[k].id, eqc |-> LitEqc(k)]]]
+      im |-> lit.steps[k].call.im, sh |-> lit.steps[k].call.sh, fi |-> lit.steps[k].call.fi, of |-> lit.steps[k].call.of,
+      cls |-> LitO(k).cls, vt |-> LitO(k).vt, osh |-> LitO(k).sh, ofi |-> LitO(k).fi,
+      id |-> lit.steps[k].id, eqc |-> LitEqc(k)]]]
 LitExport == (Mode = "lit" /\ Len(lit.steps) = LitMax) => PrintT(ToJson(LitDoc))
 \* the laws, printing the behaviour that violates them (model of the code AS PROBED, see c13.py)
 LitLawsCex == LitLaws \/ (PrintT(ToJson(LitDoc)) /\ FALSE)
